@@ -502,8 +502,47 @@ theorem finit_inv : FInv FdSys.init := by
   intro h d hh
   simp [init, List.getElem?_replicate] at hh
 
+/-- `fcntl` changes kernel flags only: the heap of details, the handles and the close log are untouched -/
+theorem setNonBlock_frame (s : FdSys) (h : Nat) (en : Bool) :
+    (s.setNonBlock h en).1.details = s.details ∧ (s.setNonBlock h en).1.handles = s.handles ∧
+    (s.setNonBlock h en).1.closeLog = s.closeLog ∧ (s.setNonBlock h en).1.nextRes = s.nextRes := by
+  unfold setNonBlock
+  cases s.target h with
+  | none => exact ⟨rfl, rfl, rfl, rfl⟩
+  | some fd =>
+      simp only []
+      cases s.kFlags fd with
+      | none => exact ⟨rfl, rfl, rfl, rfl⟩
+      | some v => obtain ⟨nb, cx⟩ := v; simp only []; split <;> exact ⟨rfl, rfl, rfl, rfl⟩
+
+theorem setCloexec_frame (s : FdSys) (h : Nat) :
+    (s.setCloexec h).1.details = s.details ∧ (s.setCloexec h).1.handles = s.handles ∧
+    (s.setCloexec h).1.closeLog = s.closeLog ∧ (s.setCloexec h).1.nextRes = s.nextRes := by
+  unfold setCloexec
+  cases s.target h with
+  | none => exact ⟨rfl, rfl, rfl, rfl⟩
+  | some fd =>
+      simp only []
+      cases s.kFlags fd with
+      | none => exact ⟨rfl, rfl, rfl, rfl⟩
+      | some v => obtain ⟨nb, cx⟩ := v; simp only []; split <;> exact ⟨rfl, rfl, rfl, rfl⟩
+
 theorem step_inv (s : FdSys) (op : FdOp) (hi : FInv s) (hok : op.ok = true) : FInv (s.step op) := by
   cases op with
+  | openFile h ok =>
+      have := del_inv s h hi (by simpa [FdOp.ok] using hok)
+      simp only [step]
+      split
+      · exact ctorFd_inv _ h false this.1 this.2
+      · exact this.1
+  | io h k a => exact hi
+  | isNonBlock h => exact hi
+  | setNonBlock h en =>
+      obtain ⟨e1, e2, e3, e4⟩ := setNonBlock_frame s h en
+      unfold FInv; simp only [step]; rw [e1, e2, e3, e4]; exact hi
+  | setCloexec h =>
+      obtain ⟨e1, e2, e3, e4⟩ := setCloexec_frame s h
+      unfold FInv; simp only [step]; rw [e1, e2, e3, e4]; exact hi
   | fresh h => exact (del_inv s h hi (by simpa [FdOp.ok] using hok)).1
   | opn h fn =>
       have := del_inv s h hi (by simpa [FdOp.ok] using hok)
